@@ -439,10 +439,14 @@ def _runs(nums: Iterable[int]) -> List[Tuple[int, int]]:
 
 
 def build_sparse(doc: Doc, xref: str = "table", objstm: Optional[List[List[int]]] = None, encryptor: Any = None,
-                 header: bytes = b"%PDF-1.7\n%\xe2\xe3\xcf\xd3\n") -> Tuple[bytes, Dict[str, Any]]:
+                 header: bytes = b"%PDF-1.7\n%\xe2\xe3\xcf\xd3\n",
+                 w: Tuple[int, Optional[int], int] = (1, 4, 2)) -> Tuple[bytes, Dict[str, Any]]:
     """Render `doc` like Doc.build, but write the cross-reference table in subsections
     (7.5.4) / the cross-reference stream with /Index (7.5.8.2), and allow several
-    object streams.  -> (file bytes, info) with info = {"xref_objnum", "objstm_objnums", "members"}."""
+    object streams.  `w` = the /W widths of the cross-reference stream (7.5.8.2, Table 17): w[0] must be 1,
+    w[1] None = the smallest width that holds every offset / object stream number, w[2] in 0..2 where 0 means
+    "field absent, value 0" and is only accepted when every generation number and every index inside an object
+    stream is 0 (ValueError otherwise; a width that cannot hold a value is refused the same way).  -> (file bytes, info) with info = {"xref_objnum", "objstm_objnums", "members"}."""
     out = bytearray(header)
     offsets: Dict[int, int] = {}
     groups = [list(g) for g in (objstm or [])] if xref == "stream" else []
@@ -516,11 +520,23 @@ def build_sparse(doc: Doc, xref: str = "table", objstm: Optional[List[List[int]]
     xn = nextn
     startxref = len(out)
     offsets[xn] = startxref
-    entries: Dict[int, bytes] = {0: b"\x00" + (0).to_bytes(4, "big") + (65535).to_bytes(2, "big")}
+    triples: Dict[int, Tuple[int, int, int]] = {}
     for n, off in offsets.items():
-        entries[n] = b"\x01" + off.to_bytes(4, "big") + doc.gens.get(n, 0).to_bytes(2, "big")
+        triples[n] = (1, off, doc.gens.get(n, 0))
     for n, (sn, idx) in packed.items():
-        entries[n] = b"\x02" + sn.to_bytes(4, "big") + idx.to_bytes(2, "big")
+        triples[n] = (2, sn, idx)
+    w1, w2, w3 = w
+    if w1 != 1 or w3 not in (0, 1, 2):
+        raise ValueError("unsupported /W %r" % (w,))
+    need2 = max(1, max((v[1].bit_length() + 7) // 8 for v in triples.values()))
+    if w2 is None:
+        w2 = need2
+    if w2 < need2 or any(v[2] >= (1 << (8 * w3)) for v in triples.values()):
+        raise ValueError("/W %r cannot hold the entries" % ((w1, w2, w3),))
+    # object 0: head of the free list, generation 65535 as far as the field can hold it
+    triples[0] = (0, 0, min(65535, (1 << (8 * w3)) - 1))
+    entries: Dict[int, bytes] = {n: bytes([t]) + a.to_bytes(w2, "big") + b.to_bytes(w3, "big")
+                                 for n, (t, a, b) in triples.items()}
     runs = _runs(entries)
     index: List[int] = []
     data = bytearray()
@@ -528,10 +544,11 @@ def build_sparse(doc: Doc, xref: str = "table", objstm: Optional[List[List[int]]
         index += [first, cnt]
         for n in range(first, first + cnt):
             data += entries[n]
-    d: Dict[Any, Any] = {"Type": Name("XRef"), "Size": xn + 1, "W": [1, 4, 2], "Index": index}
+    d: Dict[Any, Any] = {"Type": Name("XRef"), "Size": xn + 1, "W": [w1, w2, w3], "Index": index}
     d.update(trailer)
     d["Filter"] = Name("FlateDecode")
     out += ser_indirect(xn, 0, Stream(d, zlib.compress(bytes(data))))
     out += b"startxref\n%d\n%%%%EOF\n" % startxref
     info["xref_objnum"] = xn
+    info["W"] = [w1, w2, w3]
     return bytes(out), info
